@@ -150,6 +150,7 @@ static void check_request(IN_mr *in, zckRange *r) {
     V_ASSERT(!in_range || !in_other, "C10.zck_get_missing_range.valid_chunk_bytes_never_requested");
 }
 
+#ifndef VERIF_RANGE_B_NO_HARNESS   /* units/compose.c (C04) includes this file for mk_target / check_request only */
 void h_zck_get_missing_range(void) {
     IN_mr in = nondet_IN_mr();
     zckCtx *zck = mk_target(&in);
@@ -187,3 +188,4 @@ void h_zck_get_missing_range(void) {
 #ifdef VERIF_NATIVE
 #include "replay_in.h"
 #endif
+#endif /* VERIF_RANGE_B_NO_HARNESS */
